@@ -39,6 +39,22 @@ def make_runner(ctx, unit):
                                         render=unit.render(case))
             ctx.last_failure_kind = v.kind
             raise
+        except Exception as e:  # noqa: BLE001
+            import hypothesis.errors
+            if isinstance(e, hypothesis.errors.HypothesisException):
+                raise
+            where = ctx.blame(e)
+            if where is None:
+                raise           # raised by the harness itself: a harness error (exit 2), never a verdict
+            # an exception raised inside the code under test on a generated in-domain input, at a call the body did not
+            # guard explicitly: a violation (the property bodies only generate inputs the property covers)
+            kind = "code_under_test_raises"
+            if kind in ctx.disabled:
+                return
+            v = PropertyViolation(kind, "%s: %s at %s" % (type(e).__name__, str(e)[:300], where))
+            ctx.failures[kind] = dict(kind=kind, detail=str(v.detail)[:2000], payload=encode_payload(case), render=unit.render(case))
+            ctx.last_failure_kind = kind
+            raise v from e
     return run_case
 
 
